@@ -645,3 +645,23 @@ mod proptests {
         }
     }
 }
+
+// Verification hooks (off unless built with `--cfg decaf377_verif`): observe and construct
+// the internal representative of an element. Never compiled into normal builds.
+#[cfg(decaf377_verif)]
+impl Element {
+    /// The internal extended coordinates `[X, Y, Z, T]`.
+    pub fn verif_raw(&self) -> [Fq; 4] {
+        [self.x, self.y, self.z, self.t]
+    }
+
+    /// An element with exactly these extended coordinates `[X, Y, Z, T]`, unchecked.
+    pub fn verif_from_raw(c: [Fq; 4]) -> Self {
+        Element {
+            x: c[0],
+            y: c[1],
+            z: c[2],
+            t: c[3],
+        }
+    }
+}
